@@ -11,7 +11,7 @@ From EV Require Import Res Arr StableSort FilterIndex.
 Import ListNotations.
 Open Scope Z_scope.
 
-Definition cell : Type := list Z.
+Notation cell := (list Z) (only parsing).
 
 Definition gather {A} (d:A) (l:list A) (ps:list Z) : list A := map (fun p => nthd d l p) ps.
 
